@@ -4,7 +4,7 @@ import subprocess, re, os
 root = os.path.join(os.path.dirname(os.path.abspath(__file__)), '..')
 p = os.path.join(root, 'DESIGN.md')
 s = open(p).read()
-for r, title in [('r1', 'First round'), ('r2', 'Second round'), ('r3', 'Third round'), ('r4', 'Fourth round'), ('r5', 'Fifth round')]:
+for r, title in [('r1', 'First round'), ('r2', 'Second round'), ('r3', 'Third round'), ('r4', 'Fourth round'), ('r5', 'Fifth round'), ('r6', 'Sixth round')]:
     t = subprocess.run(['python3', os.path.join(root, 'tools', 'seedtable.py'), r], capture_output=True, text=True).stdout
     block = '<!-- table %s begin -->\n*%s*\n\n%s<!-- table %s end -->' % (r, title, t, r)
     marker = '@@TABLE_%s@@' % r.upper()
